@@ -142,10 +142,12 @@ Proof.
   reflexivity.
 Qed.
 
-Lemma handshake_accept fuel rnd protocol dc secret hdr k rest t :
+Lemma handshake_accept fuel rnd protocol dc secret hdr cep rest t :
   length protocol = 4%nat ->
-  client_handshake ks sha256 fuel rnd protocol dc secret = Ok (hdr, k, rest) ->
-  server_accept ks sha256 (hdr ++ t) secret = Ok ((protocol, dc mod 65536), k, t) /\
+  client_handshake ks sha256 fuel rnd protocol dc secret = Ok (hdr, cep, rest) ->
+  server_accept ks sha256 (hdr ++ t) secret =
+    Ok ((protocol, dc mod 65536), {| enc := dec cep; dec := enc cep |}, t) /\
+  s_pos (enc cep) = 64 /\ s_pos (dec cep) = 0 /\
   length hdr = 64%nat /\ acceptable hdr = true /\
   exists init skipped, rnd = concat skipped ++ init ++ rest /\
        Forall (fun c => length c = 64%nat /\ acceptable c = false) skipped /\
@@ -154,8 +156,10 @@ Proof.
   intros Hp H. unfold client_handshake in H.
   destruct (gen_init fuel rnd) as [[init r]| |] eqn:Eg; cbn [bind] in H; try discriminate.
   destruct (gen_init_spec _ _ _ _ Eg) as (sk & Hrnd & Hsk & Hil & Hacc).
-  destruct (create_streams sha256 init secret) as [k0| |] eqn:Ec; cbn [bind] in H; try discriminate.
-  apply ok_triple_inj in H. destruct H as (Hh0 & Hk0 & Hr0). subst hdr k0 r.
+  destruct (create_streams sha256 init secret) as [k| |] eqn:Ec; cbn [bind] in H; try discriminate.
+  unfold xor_stream, new_ctr in H. cbn [s_key s_iv s_pos] in H.
+  apply ok_triple_inj in H. destruct H as (Hh0 & Hk0 & Hr0). subst hdr cep r.
+  cbn [enc dec s_pos].
   set (A := firstn 56 init) in *.
   assert (length A = 56%nat) as HA by (subst A; rewrite firstn_length; lia).
   assert (init = A ++ skipn 56 init) as Hinit by (subst A; symmetry; apply firstn_skipn).
@@ -163,6 +167,8 @@ Proof.
   assert (length P = 8%nat) as HP.
   { subst P. rewrite !app_length, le_enc_length, skipn_length. lia. }
   assert (zlen A = 56) as HzA by (unfold zlen; rewrite HA; reflexivity).
+  assert (zlen (A ++ P) = 64) as HzAP by (unfold zlen; rewrite app_length, HA, HP; reflexivity).
+  rewrite HzAP. change (0 + 64) with 64.
   rewrite xor_from_app, HzA in *. change (0 + 56) with 56 in *.
   set (X := Obfs2.xor_from ks (ek k) (eiv k) 0 A) in *.
   assert (length X = 56%nat) as HX by (subst X; rewrite xor_from_length; exact HA).
@@ -174,8 +180,9 @@ Proof.
   set (B := Obfs2.xor_from ks (ek k) (eiv k) 56 P).
   assert (length B = 8%nat) as HB by (subst B; rewrite xor_from_length; exact HP).
   assert (length (A ++ B) = 64%nat) as Hh by (rewrite app_length; lia).
-  split; [|split; [exact Hh|split]].
-  - unfold server_accept, read_full. change (64 <=? 0) with false. cbv iota.
+  assert (zlen (A ++ B) = 64) as HzAB by (unfold zlen; rewrite Hh; reflexivity).
+  split; [|split; [reflexivity|split; [reflexivity|split; [exact Hh|split]]]].
+  - unfold server_accept, read_full, xor_stream, new_ctr. cbn [s_key s_iv s_pos]. change (64 <=? 0) with false. cbv iota.
     destruct (Z.leb_spec 64 (zlen ((A ++ B) ++ t))) as [_|Hc];
       [|rewrite zlen_app in Hc; unfold zlen at 1 in Hc; rewrite Hh in Hc; pose proof (zlen_nonneg t); lia].
     replace (Z.to_nat 64) with (length (A ++ B)) by (rewrite Hh; reflexivity).
@@ -187,9 +194,30 @@ Proof.
     2:{ rewrite skipn_app, HX. replace (skipn 60 X) with (@nil Z) by (symmetry; apply skipn_all2; lia). reflexivity. }
     subst P. rewrite <- Hp at 1. rewrite firstn_app_exact. rewrite <- Hp at 1. rewrite skipn_app_exact.
     rewrite <- (le_enc_length 2 dc) at 1. rewrite firstn_app_exact. rewrite le_dec_enc_mod.
-    change (256 ^ Z.of_nat 2) with 65536. reflexivity.
+    change (256 ^ Z.of_nat 2) with 65536. rewrite HzAB. reflexivity.
   - rewrite (acceptable_prefix A B (skipn 56 init)) by lia. rewrite <- Hinit. exact Hacc.
   - exists init, sk. repeat split; auto. rewrite window_prefix0 by lia. subst A. rewrite firstn_firstn. reflexivity.
+Qed.
+
+(* the whole session: handshake, accept on the header followed by the client's ciphertext,
+   data in both directions -- the stream states (key, iv, position) each side holds afterwards
+   are the ones the model computed, nothing is assumed about them *)
+Lemma session_roundtrip fuel rnd protocol dc secret hdr cep rest c2s s2c dl_s dl_c :
+  length protocol = 4%nat ->
+  client_handshake ks sha256 fuel rnd protocol dc secret = Ok (hdr, cep, rest) ->
+  let wire := send_on ks (enc cep) c2s in
+  exists sep,
+    server_accept ks sha256 (hdr ++ wire) secret = Ok ((protocol, dc mod 65536), sep, wire) /\
+    dec sep = enc cep /\ enc sep = dec cep /\
+    (concat (map fst dl_s) = wire -> err_only_last dl_s -> recv_on ks (dec sep) dl_s = concat c2s) /\
+    (concat (map fst dl_c) = send_on ks (enc sep) s2c -> err_only_last dl_c ->
+     recv_on ks (dec cep) dl_c = concat s2c).
+Proof.
+  intros Hp H wire. destruct (handshake_accept _ _ _ _ _ _ _ _ wire Hp H) as (Ha & _).
+  exists {| enc := dec cep; dec := enc cep |}. cbn [enc dec].
+  split; [exact Ha|]. split; [reflexivity|]. split; [reflexivity|]. split.
+  - intros Hw He. unfold recv_on. apply stream_roundtrip; [exact Hw|exact He].
+  - intros Hw He. unfold recv_on. apply stream_roundtrip; [exact Hw|exact He].
 Qed.
 
 End Obfs.
